@@ -116,6 +116,14 @@ def run(n, seed, worker, k):
     head = subprocess.check_output(['git', '-C', REPO, 'rev-parse', 'HEAD'], text=True).strip()
     if not os.path.isdir(wt):
         subprocess.check_call(['git', '-C', REPO, 'worktree', 'add', '-q', '--detach', wt, head])
+    # what the checks say about the unmutated worktree (expected: nothing); subtracted from every mutant's reports
+    sh(f'git checkout -q -- . && git checkout -q --detach {head}', cwd=wt)
+    baseline = {}
+    for c in CHECKS:
+        code, out = sh(f'./check {c} quick', cwd='/verif', timeout=3600, env={'VERIF_REPO': wt})
+        baseline[c] = set(re.findall(r'violation signature: (.*?) ::', out))
+        if baseline[c]:
+            print('BASELINE', c, sorted(baseline[c])[:3], flush=True)
     for idx, site in enumerate(sample):
         if idx % k != worker:
             continue
@@ -126,13 +134,11 @@ def run(n, seed, worker, k):
         new = mutate(wt, site)
         rec = {'id': mid, 'site': site, 'mutated_line': new, 'head': head}
         t0 = time.time()
-        code, out = sh('cargo build --offline -q -p typeshare-cli --features go,python 2>&1 | tail -5', cwd=wt)
-        code, out = sh('cargo build --offline -p typeshare-cli --features go,python', cwd=wt)
-        if code != 0:
+        code, out = sh('cargo test --workspace --no-fail-fast --offline --lib --bins --tests', cwd=wt, timeout=1800)
+        failed = re.findall(r'^test (\S+) \.\.\. FAILED', out, re.M)
+        if code != 0 and not failed and 'could not compile' in out:
             rec['status'] = 'does-not-compile'
         else:
-            code, out = sh('cargo test --workspace --no-fail-fast --offline --lib --bins --tests', cwd=wt, timeout=1800)
-            failed = re.findall(r'^test (\S+) \.\.\. FAILED', out, re.M)
             if code != 0 or failed:
                 rec['status'] = 'killed-by-suite'
                 rec['failed_tests'] = len(failed)
@@ -141,9 +147,9 @@ def run(n, seed, worker, k):
                 rec['checks'] = {}
                 for c in CHECKS:
                     code, out = sh(f'./check {c} quick', cwd='/verif', timeout=3600, env={'VERIF_REPO': wt})
-                    sigs = re.findall(r'violation signature: (.*?) ::', out)
+                    sigs = [x for x in re.findall(r'violation signature: (.*?) ::', out) if x not in baseline.get(c, set())]
                     rec['checks'][c] = {'exit': code, 'new_signatures': len(sigs), 'example': sigs[0][:140] if sigs else None}
-                rec['caught_by'] = [c for c, r in rec['checks'].items() if r['exit'] == 1]
+                rec['caught_by'] = [c for c, r in rec['checks'].items() if r['exit'] == 1 and r['new_signatures'] > 0]
                 rec['harness_errors'] = [c for c, r in rec['checks'].items() if r['exit'] not in (0, 1)]
         rec['wall_s'] = round(time.time() - t0, 1)
         with open(res_path, 'a') as f:
